@@ -127,7 +127,12 @@ func Reencode(b []byte, seed int64, addNulls bool) ([]byte, error) {
 	if r.IntN(4) == 0 {
 		st.Indent = "  "
 	}
-	return v.Encode(st), nil
+	out := v.Encode(st)
+	// harness self-check: the re-encoding must be content-preserving
+	if w, err := ParseJV(out); err != nil || !w.Equal(v) {
+		return nil, fmt.Errorf("harness re-encoder produced a non-equivalent text: %v", err)
+	}
+	return out, nil
 }
 
 // applyDocEdit performs a business edit on a document tree. Reports whether
